@@ -2,16 +2,16 @@ package main
 
 import (
 	"bytes"
-	"sync/atomic"
-	"net"
 	"context"
 	"fmt"
+	"net"
 	"net/http"
 	"net/http/httptest"
 	"net/netip"
 	"os"
 	"path/filepath"
 	"strings"
+	"sync/atomic"
 	"time"
 
 	"github.com/AdguardTeam/AdGuardHome/internal/aghnet"
